@@ -45,6 +45,7 @@ type c07Call struct {
 	ackSeq, recSeq, relSeq int
 	codes                  []byte
 	wrongLen               bool
+	orphan                 bool // never acknowledged: the application disconnects while it waits
 }
 
 // c07Script runs one scripted exchange; returns violation or "".
@@ -293,8 +294,17 @@ func c07Script(rng *rand.Rand) (sig, detail string, trace []string, shape string
 			order = append(o2, wrongLenCall)
 		}
 	}
+	// orphans: 1-2 calls are never acknowledged; the application calls Disconnect while they wait
+	if wrongLenCall < 0 && n >= 2 && rng.Intn(4) == 0 {
+		for _, i := range order[:1+rng.Intn(2)] {
+			calls[i].orphan = true
+		}
+	}
 	for _, i := range order {
 		k := calls[i]
+		if k.orphan {
+			continue
+		}
 		switch k.kind {
 		case "p1":
 			mu.Lock()
@@ -371,6 +381,39 @@ func c07Script(rng *rand.Rand) (sig, detail string, trace []string, shape string
 			scen.Barrier(cli)
 		}
 	}
+	// ---- orphans: wait for the acknowledged calls, then Disconnect
+	norphan := 0
+	for _, k := range calls {
+		if k.orphan {
+			norphan++
+		}
+	}
+	if norphan > 0 {
+		deadline := time.Now().Add(scen.Watchdog)
+		for time.Now().Before(deadline) {
+			mu.Lock()
+			pending := 0
+			for _, k := range calls {
+				if !k.orphan && !k.done {
+					pending++
+				}
+			}
+			mu.Unlock()
+			if pending == 0 {
+				break
+			}
+			time.Sleep(100 * time.Microsecond)
+		}
+		if s, d, t, sh, st, bad := returnedEarlyOrphans(calls, &mu, fail); bad {
+			return s, d, t, sh, st
+		}
+		dctx, dcancel := context.WithTimeout(context.Background(), scen.Watchdog)
+		cs := tr.Call("Disconnect", "")
+		derr := cli.Disconnect(dctx)
+		tr.Ret(cs, "Disconnect", "", derr)
+		dcancel()
+		stats["calls_pending_at_disconnect"] += norphan
+	}
 	// ---- everything released: every call must return
 	allDone := make(chan struct{})
 	go func() { wg.Wait(); close(allDone) }()
@@ -397,6 +440,12 @@ func c07Script(rng *rand.Rand) (sig, detail string, trace []string, shape string
 	shape = fmt.Sprintf("n=%d foreign=%d wrong=%v kinds=", n, nForeign, wrongLenCall >= 0)
 	for _, k := range calls {
 		shape += k.kind + ","
+		if k.orphan {
+			if k.err == nil {
+				return fail("completed-without-own-ack", "%s %s (id %d) returned nil although its acknowledgement was never sent: the application disconnected while it was waiting", k.kind, k.tag, k.id)
+			}
+			continue
+		}
 		if k.wrongLen {
 			if !errors.Is(k.err, mqtt.ErrInvalidSubAck) {
 				return fail("suback-count-not-checked", "Subscribe(%d filters) answered by SUBACK with %d codes returned subs=%v err=%v, want ErrInvalidSubAck", k.nf, len(k.codes), k.subs, k.err)
@@ -475,4 +524,17 @@ func init() {
 		Gen:         c07Gen,
 		Run:         c07Run,
 	})
+}
+
+// returnedEarlyOrphans: an orphan must still be waiting before Disconnect is called.
+func returnedEarlyOrphans(calls []*c07Call, mu *sync.Mutex, fail func(string, string, ...interface{}) (string, string, []string, string, map[string]int)) (string, string, []string, string, map[string]int, bool) {
+	mu.Lock()
+	defer mu.Unlock()
+	for _, k := range calls {
+		if k.orphan && k.done {
+			s, d, t, sh, st := fail("completed-without-own-ack", "%s %s (id %d) returned (err=%v) although its acknowledgement was never sent", k.kind, k.tag, k.id, k.err)
+			return s, d, t, sh, st, true
+		}
+	}
+	return "", "", nil, "", nil, false
 }
